@@ -19,8 +19,8 @@ from traits.trait_list_object import TraitList, TraitListObject  # noqa: E402
 from traits.trait_set_object import TraitSet, TraitSetObject  # noqa: E402
 from traits.trait_dict_object import TraitDict, TraitDictObject  # noqa: E402
 
-val, atom = L.val, L.atom
-INNER = {"VAll": Any, "VInt": Int, "VCInt": CInt}
+val, atom, raw_init = L.val, L.atom, L.raw_init
+INNER = L.INNER
 EXN = ["IndexError", "ValueError", "TraitError", "TypeError", "KeyError", "AttributeError"]
 _classes = {}
 
@@ -75,7 +75,7 @@ def exn(e):
 def run_list(case):
     owner = cls_for(("list", case["vk"], case["minlen"], case["maxlen"]),
                     lambda: List(INNER[case["vk"]], **list_kw(case["minlen"], case["maxlen"])))()
-    owner.x = [val(a) for a in case["init"]]
+    owner.x = [raw_init(case["vk"], a) for a in case["init"]]
     rec = Rec()
     hist = []
     for op in case["ops"]:
@@ -101,7 +101,7 @@ def run_list(case):
 # ---------------------------------------------------------------- set
 def run_set(case):
     owner = cls_for(("set", case["vk"]), lambda: Set(INNER[case["vk"]]))()
-    owner.x = set(val(a) for a in case["init"])
+    owner.x = set(raw_init(case["vk"], a) for a in case["init"])
     rec = Rec()
     hist = []
     for op in case["ops"]:
@@ -158,7 +158,7 @@ def pairs(ps):
 
 def run_dict(case):
     owner = cls_for(("dict", case["kk"], case["vk"]), lambda: Dict(INNER[case["kk"]], INNER[case["vk"]]))()
-    owner.x = dict(pairs(case["init"]))
+    owner.x = dict((raw_init(case["kk"], k), raw_init(case["vk"], v)) for k, v in case["init"])
     rec = Rec()
     hist = []
     for op in case["ops"]:
@@ -214,7 +214,7 @@ def run_nested(case):
     omn, omx = case["ob"]
     owner = cls_for(("nested", case["vk"], imn, imx, omn, omx),
                     lambda: List(List(INNER[case["vk"]], **list_kw(imn, imx)), **list_kw(omn, omx)))()
-    owner.x = [raw(r) for r in case["init"]]
+    owner.x = [[raw_init(case["vk"], a) for a in r] for r in case["init"]]
     rec = Rec()
     hist = []
     for op in case["ops"]:
@@ -265,8 +265,9 @@ def run_nested(case):
 # ---------------------------------------------------------------- Dict(Str, List(Int))
 def run_ndict(case):
     imn, imx = case["ib"]
-    owner = cls_for(("ndict", imn, imx), lambda: Dict(Str, List(Int, **list_kw(imn, imx))))()
-    owner.x = dict((val(k), raw(r)) for k, r in case["init"])
+    vk = case.get("vk", "VInt")
+    owner = cls_for(("ndict", vk, imn, imx), lambda: Dict(Str, List(INNER[vk], **list_kw(imn, imx))))()
+    owner.x = dict((val(k), [raw_init(vk, a) for a in r]) for k, r in case["init"])
     rec = Rec()
     hist = []
     for op in case["ops"]:
@@ -300,8 +301,8 @@ def run_ndict(case):
                 raise ValueError(k)
         except Exception as e:  # noqa
             out = exn(e)
-        hist.append({"out": out, "after": sorted([atom(a), [atom(v) for v in inner]] for a, inner in owner.x.items()),
-                     "nev": rec.n})
+        hist.append({"out": out, "after": [[atom(a), [atom(v) for v in inner]] for a, inner in owner.x.items()],
+                     "nev": rec.n})     # insertion order
     return hist
 
 
